@@ -35,7 +35,8 @@ PROPS = {
                        "at `return false` every rule of the reference semantics (incl. functionality) holds for every assignment",
     },
     "C05": {
-        "classes": r"^(effects\.|queries\.(root|are_equal|no-panic)|uf\.|api\..*no-panic)",
+        # the contracts are stated from between-closes states: the structural part of that invariant is re-checked as a hypothesis
+        "classes": r"^(effects\.|queries\.(root|are_equal|no-panic)|uf\.|api\..*no-panic)|^(new|api\.\w+): " + STRUCT,
         "lemmas": lambda n: n.startswith("effects.") or n in ("queries", "uf") or n.startswith("api."),
         "witness": "effects",
         "explanation": "bounded verification of the functional contract of every public mutator and query on the real generated functions: "
@@ -60,8 +61,8 @@ PROPS = {
                        "and the assertions. The structural invariants this induction rests on (C04) are re-checked as hypotheses",
     },
     "C03": {
-        "classes": r"^idem|^step\.exit-state",
-        "lemmas": lambda n: n in ("idem", "step"),
+        "classes": r"^idem|^step\.exit-state|^(?!step\.early).*" + STRUCT,
+        "lemmas": lambda n: n in ("idem", "step", "new", "prologue") or n.startswith("api."),
         "witness": "idem",
         "selfcomp": True,
         "explanation": "(a) idempotence, by SAT on the generated code: the state close() leaves behind (loop-head invariant, nothing pending, not dirty -- "
